@@ -55,6 +55,11 @@ def run(ctx):
     words = [(bytes(w), mask) for w, mask in words]
     for w, mask in words[: (600 if ctx.quick else 10000)]:
         chk.append({"word": list(w), "mask": list(mask), "accepted": bool(RS.check(bytes(w), bytes(mask)))})
+        # the receiver's habit: the word that was just accepted is offered again under the other masks (voice LC header /
+        # terminator / none) and then once more under its own
+        for m2 in [m for m in MASKS if bytes(m) != bytes(mask)][:2]:
+            chk.append({"word": list(w), "mask": list(m2), "accepted": bool(RS.check(bytes(w), bytes(m2)))})
+        chk.append({"word": list(w), "mask": list(mask), "accepted": bool(RS.check(bytes(w), bytes(mask)))})
         e = bytearray(w)
         for p in rng.sample(range(12), rng.choice([1, 2, 3])):
             e[p] ^= rng.randrange(1, 256)
